@@ -58,6 +58,12 @@ func (c *Ctx) nodeEdgeFields() (neigh, br, left, right *types.Var) {
 // localExpansions: single-assignment locals initialised by a pure getter chain are replaced by
 // their initialiser so that `root := t.Root()` and `t.Root()` meet.
 func (c *Ctx) localExpansions(info *types.Info, body *ast.BlockStmt) *canonOpts {
+	return c.localExpansionsWith(info, body, nil)
+}
+
+// localExpansionsWith starts from the substitutions of base (parameters of an inlined helper
+// standing for the caller's argument expressions).
+func (c *Ctx) localExpansionsWith(info *types.Info, body *ast.BlockStmt, base *canonOpts) *canonOpts {
 	c.indexAccessors()
 	count := map[types.Object]int{}
 	init := map[types.Object]ast.Expr{}
@@ -98,6 +104,11 @@ func (c *Ctx) localExpansions(info *types.Info, body *ast.BlockStmt) *canonOpts 
 		return true
 	})
 	o := &canonOpts{subst: map[types.Object]string{}}
+	if base != nil {
+		for k, v := range base.subst {
+			o.subst[k] = v
+		}
+	}
 	var pure func(e ast.Expr) bool
 	pure = func(e ast.Expr) bool {
 		switch x := unparen(e).(type) {
@@ -137,12 +148,19 @@ func (c *Ctx) localExpansions(info *types.Info, body *ast.BlockStmt) *canonOpts 
 }
 
 func (c *Ctx) pairEvents(fi *FuncInfo) []pairEvent {
+	return c.pairEventsIn(fi, nil, 0, map[*types.Func]bool{fi.Obj: true})
+}
+
+// pairEventsIn lists the adjacency-edit events of fi; calls of small unexported helpers of package
+// tree are inlined (their events with the parameters replaced by the caller's arguments), so that
+// extracting part of an edit into a helper does not hide its halves.
+func (c *Ctx) pairEventsIn(fi *FuncInfo, base *canonOpts, depth int, busy map[*types.Func]bool) []pairEvent {
 	info := fi.Pkg.TypesInfo
 	neighF, brF, leftF, rightF := c.nodeEdgeFields()
 	if neighF == nil || brF == nil || leftF == nil || rightF == nil {
 		return nil
 	}
-	o := c.localExpansions(info, fi.Decl.Body)
+	o := c.localExpansionsWith(info, fi.Decl.Body, base)
 	cn := func(e ast.Expr) string { return c.canon(info, e, o) }
 	var evs []pairEvent
 	// fieldOf: e is X.f (or X.F() getter) for field f; returns X
@@ -188,6 +206,29 @@ func (c *Ctx) pairEvents(fi *FuncInfo) []pairEvent {
 				// complete by construction (checked on ConnectNodes itself); it sets ends to both nodes
 				evs = append(evs, pairEvent{kind: "L", e: "new", x: cn(s.Args[0]), pos: s.Pos(), node: s})
 				evs = append(evs, pairEvent{kind: "R", e: "new", x: cn(s.Args[1]), pos: s.Pos(), node: s})
+			default:
+				// an unexported helper of package tree: inline its events
+				if depth < 2 && fn.Pkg() != nil && fn.Pkg().Path() == modPath+"/tree" && !fn.Exported() && !pairPrimitives[fn.Name()] && !busy[fn] {
+					if g := c.FuncOfObj(fn); g != nil {
+						sub := &canonOpts{subst: map[types.Object]string{}}
+						ginfo := g.Pkg.TypesInfo
+						for i, a := range s.Args {
+							if p := paramObj(ginfo, g.Decl, i); p != nil {
+								sub.subst[p] = cn(a)
+							}
+						}
+						if r := recvObj(ginfo, g.Decl); r != nil && sel != nil {
+							sub.subst[r] = cn(sel.X)
+						}
+						busy[fn] = true
+						for _, e := range c.pairEventsIn(g, sub, depth+1, busy) {
+							e.pos = s.Pos()
+							e.node = s
+							evs = append(evs, e)
+						}
+						delete(busy, fn)
+					}
+				}
 			}
 		case *ast.AssignStmt:
 			for i, l := range s.Lhs {
